@@ -13,7 +13,7 @@ from ..driver import clone
 from ..util import digest
 from ..worlds import pipeline as P
 
-PROBES = ["workers>1", "switches>0", "multi_file", "parquet", "subsampled", "cap_not_binding",
+PROBES = ["workers>1", "switches>0", "multi_file", "unequal_file_sizes", "parquet", "subsampled", "cap_not_binding",
           "pred_chunks>=2", "train_chunks>=2", "switch_in_get_rows", "switch_in_predict_fold",
           "scan_only_key", "four_col_key", "multi_psm_spectra", "fallback_best_feature",
           "brew_raised", "fold_without_accept", "dup_scan_other_mass", "pct_schedule", "pred_chunk_lacks_fold"]
@@ -25,7 +25,8 @@ def make_scenario(prop, seed):
     folds = rng.choice([2, 3, 3, 4, 5, 6])
     n_rows_guess = int(dp["n_files"] * dp["n_spectra"] * (1 + dp["max_per_spectrum"]) / 2)
     # generator bound: keep folds large enough for mokapot's own domain
-    while folds > 2 and n_rows_guess / dp["n_files"] / folds < 45:
+    smallest = dp["n_spectra"] * min(dp.get("size_factors") or [1.0]) * (1 + dp["max_per_spectrum"]) / 2
+    while folds > 2 and smallest / folds < 45:
         folds -= 1
     workers = rng.choice([1, 2, 3, 4, 6, 8])
     r = rng.random()
@@ -107,6 +108,7 @@ def run_scenario(scn, workdir, want):
         "workers>1": int(cfg["max_workers"] > 1),
         "switches>0": int(sstats["switches"] > sstats["parallel_calls"]),
         "multi_file": int(len(tables) > 1),
+        "unequal_file_sizes": int(len({len(t["rows"]) for t in tables}) > 1),
         "parquet": int(scn["format"] == "parquet"),
         "pred_chunks>=2": int(kn.get("CHUNK_SIZE_ROWS_PREDICTION", 10**9) < max(n_rows)),
         "train_chunks>=2": int(kn.get("CHUNK_SIZE_READ_ALL_DATA", 10**9) < max(n_rows)),
